@@ -249,21 +249,42 @@ impl Node {
 
     /// Clones the node and all of its descendants, returning a handle to the new subtree.
     ///
-    /// This function will run into infinite recursion when the DOM tree contains cycles and it makes
-    /// no attempts to guard against that.
+    /// The subtree is walked with an explicit stack, so that deeply nested markup cannot
+    /// overflow the call stack. This function does not terminate when the DOM tree contains
+    /// cycles and it makes no attempts to guard against that.
     fn clone_with_subtree(&self) -> Rc<Self> {
-        // The clone is not part of any tree yet; whoever inserts it sets its parent.
-        let clone = Rc::new(Self {
-            parent: Cell::new(None),
-            data: self.data.clone(),
-            children: RefCell::new(Vec::new()),
-        });
-        for child in self.children.borrow().iter() {
-            let child_clone = child.clone_with_subtree();
-            child_clone.parent.set(Some(Rc::downgrade(&clone)));
-            clone.children.borrow_mut().push(child_clone);
+        // A clone is not part of any tree yet; whoever inserts it sets its parent.
+        fn clone_node(node: &Node) -> Rc<Node> {
+            Rc::new(Node {
+                parent: Cell::new(None),
+                data: node.data.clone(),
+                children: RefCell::new(Vec::new()),
+            })
         }
-        clone
+
+        let root = clone_node(self);
+        // Pairs of (original node, clone to which the node's clone is appended).
+        let mut pending: Vec<(Handle, Rc<Self>)> = self
+            .children
+            .borrow()
+            .iter()
+            .rev()
+            .map(|child| (child.clone(), root.clone()))
+            .collect();
+        while let Some((original, parent_clone)) = pending.pop() {
+            let clone = clone_node(&original);
+            clone.parent.set(Some(Rc::downgrade(&parent_clone)));
+            parent_clone.children.borrow_mut().push(clone.clone());
+            pending.extend(
+                original
+                    .children
+                    .borrow()
+                    .iter()
+                    .rev()
+                    .map(|child| (child.clone(), clone.clone())),
+            );
+        }
+        root
     }
 }
 
